@@ -445,7 +445,7 @@ def judge(d, res):
             from .c09 import _terminal_received_before_cancel_queued as raced
             sid0 = next((e['f']['sid'] for e in world.events if e['kind'] == 'queue' and e['ep'] == 'c'
                          and e['f'].get('type', '').startswith('REQUEST_')), None)
-            if not terminated_before and not done_before and ncancel != 1 and not (ncancel == 0 and raced(world, 'c', sid0)):
+            if not terminated_before and not done_before and ncancel != 1 and not (ncancel == 0 and raced(world, 'c', sid0, model == 'rr')):
                 bad('disposal-did-not-send-exactly-one-cancel', cancel_frames=ncancel)
             cancel_recv = next((e['i'] for e in world.events if e['kind'] == 'wire' and e['ep'] == 's'
                                 and e['dir'] == 'recv' and e['f'].get('type') == 'CANCEL'), None)
